@@ -604,13 +604,16 @@ def all_opts():
 
 class Runner(object):
     """Collects selections, runs them on the implementation and, in chunks,
-    through Coq; keeps only what the verdict needs."""
-    CHUNK = 40000
+    through Coq; keeps only what the verdict needs.  Selections over one WSDL
+    go to Coq as groups (one WSDL literal, many selections); the selections
+    of a group that fails are then checked one by one."""
+    CHUNK = 120000          # selections per Coq round
+    GROUP = 60              # selections per group
 
     def __init__(self, ck):
         self.ck = ck
-        self.cases = []
-        self.meta = []
+        self.groups = []        # (coq term of the WSDL, [coq term of a selection], [meta])
+        self.pending = 0
         self.total = 0
         self.shapes = set()
         self.spec_bad = []      # (shape, opts, expr, outcome) the text does not allow
@@ -618,19 +621,32 @@ class Runner(object):
         self.samples = []
 
     def flush(self):
-        if not self.cases:
+        if not self.groups:
             return
-        res = self.ck.run_cases("sel", preamble(), "sel_case", self.cases,
-                                ["sel_agrees", "sel_spec_ok"], shard=250)
-        bad = set(res["sel_spec_ok"])
-        self.spec_bad.extend(self.meta[i] for i in res["sel_spec_ok"][:50])
-        self.disagree.extend(self.meta[i] for i in res["sel_agrees"] if i not in bad)
-        del self.disagree[50:]
+        cases = ["(%s, %s)" % (cw, clist(sels, "selection")) for (cw, sels, _m) in self.groups]
+        res = self.ck.run_cases("grp", preamble(), "sel_group", cases,
+                                ["grp_agrees", "grp_spec_ok"], shard=100)
+        failing = sorted(set(res["grp_agrees"]) | set(res["grp_spec_ok"]))
+        if failing:
+            # second round: the selections of (a bounded number of) failing groups one by one
+            singles, smeta = [], []
+            for gi in failing[:40]:
+                cw, sels, metas = self.groups[gi]
+                for cs, m in zip(sels, metas):
+                    singles.append("(%s, %s)" % (cw, cs[1:-1]))
+                    smeta.append(m)
+            res1 = self.ck.run_cases("sel", preamble(), "sel_case", singles,
+                                     ["sel_agrees", "sel_spec_ok"], shard=250)
+            bad = set(res1["sel_spec_ok"])
+            self.spec_bad.extend(smeta[i] for i in res1["sel_spec_ok"][:50])
+            self.disagree.extend(smeta[i] for i in res1["sel_agrees"] if i not in bad)
+            del self.spec_bad[200:]
+            del self.disagree[50:]
         if len(self.samples) < 4:
-            for i in (5, len(self.meta) // 3, len(self.meta) // 2, len(self.meta) - 7):
-                if 0 <= i < len(self.meta):
-                    self.samples.append(self.meta[i])
-        self.cases, self.meta = [], []
+            for gi in (0, len(self.groups) // 3, len(self.groups) // 2, len(self.groups) - 1):
+                metas = self.groups[gi][2]
+                self.samples.append(metas[len(metas) // 2])
+        self.groups, self.pending = [], 0
 
     def group(self, shape, selections, bucket):
         """selections: iterable of (opts, expr)."""
@@ -639,6 +655,7 @@ class Runner(object):
         self.shapes.add(shape.key())
         cur = self          # sentinel: no options applied yet
         seen = set()
+        sels, metas = [], []
         for (o, e) in selections:
             if (o, e) in seen:
                 continue
@@ -655,9 +672,13 @@ class Runner(object):
                         cur = self
                         ok = False
                 x = observe(client, e) if ok else ("weird", 5)
-            self.cases.append("(%s, %s, %s, %s)" % (cw, c_opts(o), c_expr(e), c_outcome(x)))
-            self.meta.append((shape, o, e, x))
+            sels.append("(%s, %s, %s)" % (c_opts(o), c_expr(e), c_outcome(x)))
+            metas.append((shape, o, e, x))
+            if len(sels) >= self.GROUP:
+                self.groups.append((cw, sels, metas))
+                sels, metas = [], []
             self.total += 1
+            self.pending += 1
             self.ck.seen((shape.key(), o, e),
                          nontrivial=(x[0] == "sent" or
                                      (x[0] == "exc" and x[1] in ("ServiceNotFound", "PortNotFound",
@@ -665,7 +686,9 @@ class Runner(object):
             self.ck.count("scope:" + bucket)
             self.ck.count("outcome:" + (x[1] if x[0] == "exc" else x[0]))
             self.ck.count("depth:%d" % len(e))
-        if len(self.cases) >= self.CHUNK:
+        if sels:
+            self.groups.append((cw, sels, metas))
+        if self.pending >= self.CHUNK:
             self.flush()
 
 
@@ -680,8 +703,8 @@ def gen_selections(ck, run):
     rng = ck.rng
     thorough = ck.tier == "thorough"
     # (a) the WSDL dimension: shapes x sampled (options, expression)
-    idxs = range(N_SHAPES) if thorough else slice_indexes(ck, 220)
-    n_plain, n_opts, per_opt = (2, 1, 3) if thorough else (6, 3, 4)
+    idxs = range(N_SHAPES) if thorough else slice_indexes(ck, 300)
+    n_plain, n_opts, per_opt = (2, 2, 3) if thorough else (8, 4, 4)
     for i in idxs:
         sh = shape_by_index(i)
         sels = [((None, None, None), weighted_expr(rng, sh)) for _ in range(n_plain)]
@@ -690,14 +713,14 @@ def gen_selections(ck, run):
             sels += [(o, weighted_expr(rng, sh, o)) for _ in range(per_opt)]
         run.group(sh, sels, "a:shapes")
     # (b) expressions of depth <= 2 exhaustively x options, on the core WSDLs
-    d12 = all_exprs(1) + all_exprs(2, items_first=not thorough)
+    d12 = all_exprs(1) + all_exprs(2, items_first=False)
     opts = all_opts()
     core_b = CORE[:4] if thorough else CORE[:3]
     for ci, sh in enumerate(core_b):
         if thorough:
             os_ = opts
         else:
-            os_ = [(None, None, None)] + rng.sample(opts[1:], 4)
+            os_ = [(None, None, None)] + rng.sample(opts[1:], 7)
         run.group(sh, [(o, e) for o in os_ for e in d12], "b:depth<=2 exhaustive")
     # ... and on a WSDL without SOAP ports and one without services (every selection must fail)
     for sh in CORE[4:6]:
@@ -712,7 +735,7 @@ def gen_selections(ck, run):
                ("SvcA", -1, OVERRIDE)]
         if not thorough:
             os_ = os_[:1] + [rng.choice(os_[1:])]
-        exprs = d3 if thorough else rng.sample(d3, len(d3) // 20)
+        exprs = d3 if thorough else rng.sample(d3, len(d3) // 6)
         run.group(sh, [(o, e) for o in os_ for e in exprs], "c:depth 3")
     # (d) WSDLs whose port names an undeclared binding: Client(...) must fail
     for sh in UNLOADABLE:
@@ -897,7 +920,7 @@ def run(ck):
 
     # histories
     hist_cases, hist_meta = [], []
-    n_hist = 2500 if ck.tier == "thorough" else 200
+    n_hist = 3000 if ck.tier == "thorough" else 300
     shapes_h = [sh for sh in CORE if sh.services] + [shape_by_index(i) for i in slice_indexes(ck, 40)]
     for hi in range(n_hist):
         sh = shapes_h[hi % len(shapes_h)]
@@ -987,14 +1010,14 @@ def run(ck):
         "with a port over an undeclared binding, and %d histories of set_options/clone/call over up to 4 "
         "clients sharing a WSDL. distinct = distinct (WSDL, options, expression) or history; non-trivial = a "
         "request was sent or one of the three *NotFound classes raised (histories: contains a clone)"
-        % ("all of them" if thorough else "a seed-offset slice of 220",
-           5 if thorough else 18,
+        % ("all of them" if thorough else "a seed-offset slice of 300",
+           8 if thorough else 24,
            4 if thorough else 3,
-           "" if thorough else "; attribute access only as last step",
-           "all" if thorough else "5",
+           "",
+           "all" if thorough else "8",
            SERVICE_OPTS, PORT_OPTS,
            "all 9025 x 4 option settings on 4 WSDLs" if thorough
-           else "a twentieth of the 9025 x 2 option settings on 3 WSDLs",
+           else "a sixth of the 9025 x 2 option settings on 3 WSDLs",
            len(hist_meta)))
     # exhaustive sub-scopes only (all shapes; all depth<=2 expressions x all option settings on the core
     # WSDLs); the full product of the quantifier is not enumerated
